@@ -198,6 +198,10 @@ _INT = {
 IPV4 = [A("1.2.3.4", 0x0506), A("0.0.0.0", 0), A("255.255.255.255", 65535), A("127.0.0.1", 1)]
 IPV6 = [A("2001:db8::1", 0x0506), A("::", 0), A("ffff:ffff:ffff:ffff:ffff:ffff:ffff:ffff", 65535)]
 DOMAIN = [A("tribler.org", 0x0506), A("a", 0), A("bücher.example", 65535), A("x" * 255, 1)]
+# byte twins: a host name of exactly 4 / 16 bytes and the IPv4 / IPv6 address made of the very same bytes, same port -
+# on the wire they differ only in the address-type byte
+TWIN4 = [A("116.46.99.111", 443), A("t.co", 443)]
+TWIN16 = [A("6162:6364:6566:6768:2e65:7861:6d70:6c65", 443), A("abcdefgh.example", 443)]
 BITS = [{"t": [(n >> s) & 1 for s in range(7, -1, -1)]} for n in [0xA5, 0, 0xFF, *(set(range(256)) - {0xA5, 0, 0xFF})]]
 BITS = [BITS[0], BITS[1], BITS[2], *sorted(BITS[3:], key=lambda d: d["t"])]
 NODES = [{"node": [0, ["1.2.3.4", 0x0506]]}, {"node": [1, ["2001:db8::1", 65535]]}, {"node": [100, ["0.0.0.0", 0]]}]
@@ -239,11 +243,11 @@ def alphabet_for(fmt: Any) -> list:  # noqa: ANN401, C901, PLR0911, PLR0912
     if fmt == "bits":
         return BITS
     if fmt == "ipv4":
-        return IPV4
+        return [*IPV4, TWIN4[0]]
     if fmt == "ip_address":
-        return [IPV4[0], IPV4[1], IPV4[2], *IPV6]
+        return [IPV4[0], IPV4[1], IPV4[2], *IPV6, TWIN4[0], TWIN16[0]]
     if fmt == "address":
-        return [IPV4[0], IPV4[1], IPV4[2], *IPV6, *DOMAIN]
+        return [IPV4[0], IPV4[1], IPV4[2], *IPV6, *DOMAIN, *TWIN4, *TWIN16]
     if fmt == "raw":
         return [BP(23), B(b""), BP(1400), B(b"\x00")]
     if fmt in ("varlenH", "doublevarlenH"):
